@@ -168,6 +168,7 @@ def step (c impl : String) : String :=
       let cls := univ.map (fun o => (o, if cs.stratified then oracleClass (objWorld w o) else "?"))
       let clsOf := fun o => ((cls.find? (·.1 = o)).map (·.2)).getD "X"
       let permitted := (cls.filter (·.2 = "T")).map (·.1)
+      let unevaluable := (cls.filter (·.2 = "U")).map (·.1)
       let rm := reModel w tT tR
       let runs := kv.filter (fun p => p.1 ≠ "ed" && p.1 ≠ "re")
       -- ---- the property ----
@@ -176,6 +177,7 @@ def step (c impl : String) : String :=
         let (lim, cut) := limitOf k
         -- the streaming pipeline (no confirming Check) only runs for plain object subjects
         let usesCheck := !(eng = "p" && !isUserset w.req.user && !isTypedWildcard w.req.user)
+        let weighted := eng = "w" || k = "sw"
         if v = "HANG" then
           if eng = "p" && l4Shape w then
             [(s!"engine did not return: engine={k} (streaming pipeline: Pipeline.Close blocks after the deadline; teardown never reaches quiescence)", false)]
@@ -213,6 +215,7 @@ def step (c impl : String) : String :=
                   | none =>
                     if k = "c0" && rm.err then (s!"truncated response without error: engine=c0 (maxResults=0) misses {o} (oracle=T): a condition evaluation error is dropped because len(objects) < int(maxResults) never holds for 0", false)
                     else if !usesCheck && l5Shape w then (s!"pipeline misses a permitted object in a store with a tuple that carries the condition of a sibling type restriction (storage filter Conditions = edge conditions): engine={k} object={o} out={v}", false)
+                    else if weighted && !unevaluable.isEmpty then (s!"weighted engine returns a short list without error although a candidate cannot be evaluated (oracle=U on {",".intercalate unevaluable}): engine={k} misses {o} (oracle=T) out={v}: an error of the residual-check pool was elided (loopOverEdges may elide cancellation / deadline only)", false)
                     else (s!"permitted object missing: engine={k} object={o} out={v}", false))
               | some l =>
                 if out.eraseDups.length < l && !missing.isEmpty then
@@ -221,6 +224,8 @@ def step (c impl : String) : String :=
                     [(s!"inherited F1/F12: engine={k} returns fewer than limit because confirming Checks deny on tainted decisions", true)]
                   else if !usesCheck && l5Shape w then
                     [(s!"pipeline misses a permitted object in a store with a tuple that carries the condition of a sibling type restriction (storage filter Conditions = edge conditions): engine={k} got={out.eraseDups.length} limit={l} missing={",".intercalate unexplained}", false)]
+                  else if weighted && !unevaluable.isEmpty then
+                    [(s!"weighted engine returns a short list without error although a candidate cannot be evaluated (oracle=U on {",".intercalate unevaluable}): engine={k} got={out.eraseDups.length} limit={l} permitted={permitted.length}: an error of the residual-check pool was elided (loopOverEdges may elide cancellation / deadline only)", false)]
                   else
                     [(s!"fewer than limit objects: engine={k} got={out.eraseDups.length} limit={l} permitted={permitted.length} missing={",".intercalate unexplained} (no error, no deadline): trySendObject counts before it sends and the send races cancel()", false)]
                 else []
